@@ -7,6 +7,7 @@ import (
 	"golang.org/x/tools/go/ssa"
 
 	"lbcheck/eng"
+	"lbcheck/ir"
 )
 
 // Rules that accompany the repairs F94–F102 (defects in the unchanged code found by the round-5 agents).
@@ -315,22 +316,55 @@ func ruleCompactedSegmentsArePublishedAsTheyAreReplaced(c *eng.Ctx) {
 // ruleListIsFetchedAfterTheWait (R01.14 extension): a parked committed reader looks its segments up in a list fetched AFTER
 // the wait — segments roll while it is parked, and the list fetched at the top of the call no longer holds them.
 func ruleListIsFetchedAfterTheWait(c *eng.Ctx) {
-	fn := c.Fn(cl + "(*committedReader).Read")
-	if fn == nil {
-		return
+	nWaits := 0
+	for _, name := range []string{"(*committedReader).Read", "(*committedReader).readLoop"} {
+		fn := c.FnQuiet(cl + name)
+		if fn == nil {
+			continue
+		}
+		var waits []ssa.Instruction
+		for _, w := range eng.CallsIn(fn, cl+"committedReader.waitForHW") {
+			waits = append(waits, w.(ssa.Instruction))
+		}
+		if len(waits) == 0 {
+			continue
+		}
+		nWaits += len(waits)
+		lookup := eng.IsCallTo(cl+"getHWPos", cl+"findSegment", cl+"findSegmentContains", cl+"findSegmentByBaseOffset")
+		q := &eng.PathQuery{Fn: fn, FromAfter: waits, Target: lookup, CutInstr: eng.IsCallTo(cl + "commitLog.Segments")}
+		w := q.Find()
+		c.Check(w == nil, "after a wait the segment list is fetched again before it is searched"+map[bool]string{true: "", false: " (" + fn.Name() + ")"}[name == "(*committedReader).Read"], c.Pos(waits[0]), "every path from waitForHW to getHWPos / findSegment passes r.cl.Segments()", "committedReader."+fn.Name()+" searches, after waiting for the watermark, the segment list it fetched before the wait ("+w.String()+"): segments rolled while the reader was parked are not in it — the reader pins itself to the end of the old segment and stalls, or fails with ErrSegmentNotFound")
+		// ... and the list that IS searched is one fetched after the wait: a fresh list that goes into another variable (a
+		// helper's local) does not help the lookup that still uses the old one
+		eng.Instrs(fn, func(in ssa.Instruction) {
+			if !lookup(in) {
+				return
+			}
+			args := eng.AllArgs(in.(ssa.CallInstruction).Common())
+			var list ssa.Value
+			for _, a := range args {
+				if strings.HasSuffix(a.Type().String(), "[]*"+ir.ModulePath+"/server/commitlog.segment") {
+					list = a
+				}
+			}
+			if list == nil {
+				return
+			}
+			fresh := map[ssa.Instruction]bool{}
+			for _, src := range phiSources(list) {
+				if call := eng.AsCall(src); call != nil && eng.CalleeRef(&call.Call) == cl+"commitLog.Segments" {
+					fresh[call] = true
+				}
+			}
+			q2 := &eng.PathQuery{Fn: fn, FromAfter: waits, Target: func(x ssa.Instruction) bool { return x == in }, CutInstr: func(x ssa.Instruction) bool { return fresh[x] }}
+			if w2 := q2.Find(); w2 != nil {
+				c.Violate("the list searched after a wait is the one fetched after it ("+fn.Name()+")", c.Pos(in), "committedReader."+fn.Name()+" hands "+eng.CalleeRef(in.(ssa.CallInstruction).Common())+" a segment list that can be the one fetched before the reader parked ("+w2.String()+"; the list fetched after the wait goes into another variable): a segment rolled while the reader waited is not found, and a caught-up subscription ends with `no segment to consume` instead of delivering the next message")
+			}
+		})
 	}
-	var waits []ssa.Instruction
-	for _, w := range eng.CallsIn(fn, cl+"committedReader.waitForHW") {
-		waits = append(waits, w.(ssa.Instruction))
+	if nWaits == 0 {
+		c.Unresolved("the waitForHW calls of committedReader.Read / readLoop")
 	}
-	if len(waits) == 0 {
-		c.Unresolved("the waitForHW call of committedReader.Read")
-		return
-	}
-	lookup := eng.IsCallTo(cl+"getHWPos", cl+"findSegment", cl+"findSegmentContains", cl+"findSegmentByBaseOffset")
-	q := &eng.PathQuery{Fn: fn, FromAfter: waits, Target: lookup, CutInstr: eng.IsCallTo(cl + "commitLog.Segments")}
-	w := q.Find()
-	c.Check(w == nil, "after a wait the segment list is fetched again before it is searched", c.Pos(waits[0]), "every path from waitForHW to getHWPos / findSegment passes r.cl.Segments()", "committedReader.Read searches, after waiting for the watermark, the segment list it fetched before the wait ("+w.String()+"): segments rolled while the reader was parked are not in it — the reader pins itself to the end of the old segment and stalls, or fails with ErrSegmentNotFound")
 }
 
 // ruleTelemetrySectionIsTakenKeyByKey (R19.5 extension): the configuration reader stores what the file says for each key it
